@@ -425,3 +425,159 @@ func ruleStructGoFieldNames(c *core.Ctx, rule string) {
 	}
 	_ = n
 }
+
+// ---------------------------------------------------------------- nil maps
+
+type nilMapAnalysis struct {
+	memo map[*ssa.Function]map[int]int // 0 unknown/in progress, 1 may be nil, 2 never nil
+}
+
+// nonNilEdge: the value e reaches phi through predecessor i on an edge that
+// established e != nil (if e == nil { e = make(...) } joins on the false edge).
+func nonNilEdge(phi *ssa.Phi, i int, e ssa.Value) bool {
+	if i >= len(phi.Block().Preds) {
+		return false
+	}
+	p := phi.Block().Preds[i]
+	// walk up through single-predecessor chains to the deciding If
+	for hops := 0; hops < 4; hops++ {
+		if len(p.Instrs) > 0 {
+			if ifi, ok := p.Instrs[len(p.Instrs)-1].(*ssa.If); ok {
+				cm, neg := core.CondCmp(ifi.Cond)
+				isE := func(v ssa.Value) bool { return core.Canon(v) == core.Canon(e) }
+				var other ssa.Value
+				if isE(cm.X) {
+					other = cm.Y
+				} else if isE(cm.Y) {
+					other = cm.X
+				}
+				if other != nil && core.IsNilConst(other) {
+					// which successor leads to phi's block?
+					next := phi.Block()
+					if hops > 0 {
+						return false
+					}
+					tEdge := p.Succs[0] == next
+					eq := cm.Op == token.EQL
+					if neg {
+						eq = !eq
+					}
+					// e == nil: true edge is the nil side
+					if eq {
+						return !tEdge
+					}
+					return tEdge
+				}
+				return false
+			}
+		}
+		if len(p.Preds) != 1 {
+			return false
+		}
+		p = p.Preds[0]
+	}
+	return false
+}
+
+func (a *nilMapAnalysis) mayBeNil(v ssa.Value, depth int, seen map[ssa.Value]bool) bool {
+	if depth > 8 || v == nil {
+		return false
+	}
+	v = core.Canon(v)
+	if seen[v] {
+		return false
+	}
+	seen[v] = true
+	switch x := v.(type) {
+	case *ssa.Const:
+		return x.IsNil()
+	case *ssa.MakeMap:
+		return false
+	case *ssa.Phi:
+		for i, e := range x.Edges {
+			if nonNilEdge(x, i, e) {
+				continue
+			}
+			if a.mayBeNil(e, depth+1, seen) {
+				return true
+			}
+		}
+		return false
+	case *ssa.Extract:
+		if call, ok := x.Tuple.(*ssa.Call); ok {
+			return a.callMayReturnNil(call, x.Index, depth)
+		}
+	case *ssa.Call:
+		return a.callMayReturnNil(x, 0, depth)
+	case *ssa.ChangeType:
+		return a.mayBeNil(x.X, depth+1, seen)
+	}
+	return false
+}
+
+func (a *nilMapAnalysis) callMayReturnNil(call *ssa.Call, idx int, depth int) bool {
+	f := call.Call.StaticCallee()
+	if f == nil || !inRepo(f) || len(f.Blocks) == 0 {
+		return false
+	}
+	if a.memo[f] == nil {
+		a.memo[f] = map[int]int{}
+	}
+	switch a.memo[f][idx] {
+	case 1:
+		return true
+	case 2:
+		return false
+	}
+	a.memo[f][idx] = 2 // recursion: assume fine
+	res := false
+	for _, r := range core.Returns(f) {
+		if errorReturnConst(r) || idx >= len(r.Results) {
+			continue // a failure return: the caller does not use the value
+		}
+		if a.mayBeNil(core.RetVal(r, idx), depth+1, map[ssa.Value]bool{}) {
+			res = true
+		}
+	}
+	if res {
+		a.memo[f][idx] = 1
+	}
+	return res
+}
+
+// ruleNoNilMapWrite: no map that can be nil is written.  A decoder (or any
+// function of the repository) that can hand back a nil map on a success path —
+// the zero value of a named result when the announced count is zero — and a
+// caller that stores into the result: assignment to entry in nil map panics in
+// the goroutine that decodes, for the input with no entries.
+func ruleNoNilMapWrite(c *core.Ctx, rule string, rels ...string) {
+	a := &nilMapAnalysis{memo: map[*ssa.Function]map[int]int{}}
+	n, bad := 0, 0
+	for _, rel := range withExamples(rels) {
+		for _, fn := range c.RepoFuncs(rel) {
+			if c.IsTestFile(fn) || !notExample(fn) {
+				continue
+			}
+			for _, b := range fn.Blocks {
+				for _, in := range b.Instrs {
+					mu, ok := in.(*ssa.MapUpdate)
+					if !ok {
+						continue
+					}
+					n++
+					if a.mayBeNil(mu.Map, 0, map[ssa.Value]bool{}) {
+						// a dominating m != nil test protects the write
+						m0 := core.Canon(mu.Map)
+						isM := func(v ssa.Value) bool { return core.Canon(v) == m0 }
+						if core.Guarded(fn, mu, core.Ne(isM, core.IsNilConst)) {
+							continue
+						}
+						bad++
+						c.Fail(rule, fmt.Sprintf("nil-map-write@%s#%d", core.FuncKey(fn), bad), mu.Pos(), "the map written here can be nil: it is the result of a function that returns the zero map on a success path (no entry announced) or a variable that is only made on some paths; assignment to an entry in a nil map panics, for the input with no entries, in the goroutine that decodes")
+					}
+				}
+			}
+		}
+	}
+	c.Pass(rule, "map-writes", token.NoPos, fmt.Sprintf("%d map writes examined, %d on a possibly nil map", n, bad))
+}
